@@ -11,12 +11,13 @@ static mcx::Ctx ctx;
 static const int S = 10;
 struct Rc { int x0, y0, x1, y1; bool alive; bool touched; };   // touched: added or moved after the connectors were first routed
 struct Ep { int x0, y0, x1, y1; };
-struct Op { int kind, a, dx, dy; };   // 0 move shape a by (dx,dy); 1 delete shape a; 2 add shape (list index a); 3 move endpoint: conn a, end dx (0/1), to point index dy; 4 process
+struct Op { int kind, a, dx, dy; };   // 0 move shape a by (dx,dy); 1 delete shape a; 2 add shape (list index a); 3 move endpoint: conn a, end dx (0/1), to point index dy; 4 process; 5 resize shape a: dx/dy added to its right/bottom side (moveShape with a new polygon)
 static const vector<Rc> RL = {{2, 1, 3, 3}, {2, 2, 4, 3}, {1, 2, 2, 5}, {3, 0, 4, 2}, {2, 3, 3, 4}, {4, 2, 5, 5}};
 static const vector<Ep> EPS = {{0, 2, 6, 2}, {0, 0, 6, 6}, {1, 0, 5, 6}, {0, 3, 6, 1}, {3, 6, 3, 0}};
 static const vector<array<int, 2>> PTS = {{0, 5}, {6, 4}, {3, 5}};
 static string op_str(const Op &o) {
     switch (o.kind) { case 0: return mcx::fmt("move(shape%d,%+d,%+d)", o.a, o.dx, o.dy); case 1: return mcx::fmt("delete(shape%d)", o.a); case 2: return mcx::fmt("add(rect#%d)", o.a);
+                      case 5: return mcx::fmt("resize(shape%d,%+d,%+d)", o.a, o.dx, o.dy);
                       case 3: return mcx::fmt("setEndpoint(conn%d,%s,(%d,%d))", o.a, o.dx ? "dst" : "src", PTS[o.dy][0], PTS[o.dy][1]); default: return "processTransaction"; }
 }
 static Avoid::Router *mk(bool ortho, bool transactions) {
@@ -111,6 +112,7 @@ static void run_history(const World &w0, const vector<Op> &ops, bool ortho, bool
         const Op &o = ops[k]; desc += " " + op_str(o); ctx.count("transitions");
         if (o.kind == 0) { r->moveShape(sh[o.a], o.dx * S, o.dy * S); Rc &c = w.shapes[o.a]; c.x0 += o.dx; c.x1 += o.dx; c.y0 += o.dy; c.y1 += o.dy; c.touched = true; }
         else if (o.kind == 1) { r->deleteShape(sh[o.a]); w.shapes[o.a].alive = false; sh[o.a] = nullptr; }
+        else if (o.kind == 5) { Rc &c = w.shapes[o.a]; c.x1 += o.dx; c.y1 += o.dy; c.touched = true; Avoid::Rectangle pg(Avoid::Point(c.x0 * S, c.y0 * S), Avoid::Point(c.x1 * S, c.y1 * S)); r->moveShape(sh[o.a], pg); }
         else if (o.kind == 2) { Rc c = RL[o.a]; c.alive = true; c.touched = true; w.shapes.push_back(c); sh.push_back(mk_shape(r, c)); }
         else if (o.kind == 3) { Avoid::ConnEnd e(Avoid::Point(PTS[o.dy][0] * S, PTS[o.dy][1] * S)); if (o.dx) { lc[o.a]->setDestEndpoint(e); w.conns[o.a].x1 = PTS[o.dy][0]; w.conns[o.a].y1 = PTS[o.dy][1]; } else { lc[o.a]->setSourceEndpoint(e); w.conns[o.a].x0 = PTS[o.dy][0]; w.conns[o.a].y0 = PTS[o.dy][1]; } }
         pending++;
@@ -128,13 +130,16 @@ static vector<Op> legal_ops(const World &w, const vector<Op> &pendingInTx) {
         for (int dx = -1; dx <= 1; dx++) for (int dy = -1; dy <= 1; dy++) if ((dx == 0) != (dy == 0)) v.push_back({0, (int)s, dx, dy});
         if (!addedInTx) v.push_back({1, (int)s, 0, 0});
         (void)movedInTx;
+        v.push_back({5, (int)s, 1, 0}); v.push_back({5, (int)s, 0, 1});
+        if (w.shapes[s].x1 - w.shapes[s].x0 > 1) v.push_back({5, (int)s, -1, 0}); if (w.shapes[s].y1 - w.shapes[s].y0 > 1) v.push_back({5, (int)s, 0, -1});
     }
     if (w.shapes.size() < 4) for (int k : {4, 5}) v.push_back({2, k, 0, 0});
     for (size_t c = 0; c < w.conns.size(); c++) for (int e = 0; e < 2; e++) for (int p = 0; p < (int)PTS.size(); p++) v.push_back({3, (int)c, e, p});
     return v;
 }
 static World apply_model(World w, const Op &o) {
-    if (o.kind == 0) { Rc &c = w.shapes[o.a]; c.x0 += o.dx; c.x1 += o.dx; c.y0 += o.dy; c.y1 += o.dy; } else if (o.kind == 1) w.shapes[o.a].alive = false; else if (o.kind == 2) { Rc c = RL[o.a]; c.alive = true; w.shapes.push_back(c); }
+    if (o.kind == 5) { Rc &c = w.shapes[o.a]; c.x1 += o.dx; c.y1 += o.dy; }
+    else if (o.kind == 0) { Rc &c = w.shapes[o.a]; c.x0 += o.dx; c.x1 += o.dx; c.y0 += o.dy; c.y1 += o.dy; } else if (o.kind == 1) w.shapes[o.a].alive = false; else if (o.kind == 2) { Rc c = RL[o.a]; c.alive = true; w.shapes.push_back(c); }
     else if (o.kind == 3) { if (o.dx) { w.conns[o.a].x1 = PTS[o.dy][0]; w.conns[o.a].y1 = PTS[o.dy][1]; } else { w.conns[o.a].x0 = PTS[o.dy][0]; w.conns[o.a].y0 = PTS[o.dy][1]; } }
     return w;
 }
